@@ -553,3 +553,82 @@ def _mu_inv(L):
                    Implies(sel(m0, p) != 0, Implies(t1 - hb_of(st0, sel(m0, p)) <= z3.ToReal(to),
                                                     And(nosig(p), aborted_of(st1, sel(m0, p)) == aborted_of(st0, sel(m0, p)))))))),
                st1.ghost["K_hb"] == st0.ghost["K_hb"])
+
+
+# ======================================================================================================
+# reap_workers (C03, C14)
+# ======================================================================================================
+def _signals_stub(ex, st, self_v, args, kwargs, node):
+    # signal.Signals(status): the enum member (its .name is only logged) or ValueError
+    bad = st.fork()
+    return [ex.res(st, st.alloc(HObj("SignalsMember", {"name": strops.fresh_str(st, "signame", True)}))), ex.res_exc(bad, SExc(ValueError))]
+
+
+STUBS["signal.Signals"] = _signals_stub
+
+
+@contract("gunicorn.arbiter:Arbiter.reap_workers", props=("C03", "C14"))
+class ReapWorkers(Contract):
+    """loops until no zombie is left; every reaped worker is forgotten; the re-exec child resets reexec_pid; a worker that
+    exited with status 3 / 4 stops the server with that very status (HaltServer) instead of being respawned"""
+
+    def cases(self, env):
+        st = State()
+        a = mk_arbiter(env, st)
+        return [("reap", st, {"self": a}, {})]
+
+    def modifies(self, c):
+        W = A(c).fields["WORKERS"]
+        return [("field", W, "g_map"), ("field", W, "g_size"), ("ghost", "K_state"), ("field", c.a["self"], "reexec_pid")]
+
+    def raises(self, c):
+        H = c.ex.env.repo.live("gunicorn.errors").HaltServer
+        return [(H, None), (OSError, None, lambda c2: {"errno": SInt(fresh_int("errno"))})]
+
+    def exc_post(self, c):
+        H = c.ex.env.repo.live("gunicorn.errors").HaltServer
+        if c.exc is not None and c.exc.cls is H:
+            code = c.exc.args[1] if len(c.exc.args) > 1 else c.exc.fields.get("exit_status")
+            ok = isinstance(code, SInt)
+            return [("halt-status-is-the-worker's-boot-failure-code", And(Or(code.t == 3, code.t == 4)) if ok else FALSE)]
+        return []
+
+    def post(self, c):
+        st1, st0 = c.st, c.old
+        W = A(c).fields["WORKERS"]
+        m1, m0 = w_map(st1, W), w_map(st0, W)
+        K1, K0 = st1.ghost["K_state"], st0.ghost["K_state"]
+        p = qvar("p")
+        rp0, rp1 = A(c, st0).fields["reexec_pid"].t, A(c, st1).fields["reexec_pid"].t
+        return [("no-zombie-left", z3.ForAll([p], sel(K1, p) != 2)),
+                ("only-zombies-disappear", z3.ForAll([p], If(sel(K0, p) == 2, sel(K1, p) == 0, sel(K1, p) == sel(K0, p)))),
+                ("reaped-workers-are-forgotten-others-kept", z3.ForAll([p], If(And(sel(K0, p) == 2, p != rp0), sel(m1, p) == 0, sel(m1, p) == sel(m0, p)))),
+                ("reexec_pid-reset-iff-the-upgrade-child-was-reaped", rp1 == If(And(rp0 != 0, sel(K0, rp0) == 2), iv(0), rp0)),
+                ("no-boot-failure-among-the-reaped", z3.ForAll([p], Implies(And(sel(K0, p) == 2, p != rp0),
+                                                                             And(_exitcode(st0, p) != 3, _exitcode(st0, p) != 4))))]
+
+    loops = {0: dict(anchor="while True", cands=[
+        ("progress", lambda L: _reap_inv(L)),
+    ])}
+
+
+def _exitcode(st, p):
+    """status >> 8 for the non-negative wait status of pid p"""
+    s = sel(st.ghost["K_status"], p)
+    q = z3.Function("shr8", I, I)
+    return q(s)
+
+
+def _reap_inv(L):
+    st1, st0 = L.st, L.fentry
+    W = st1.obj(L.self).fields["WORKERS"]
+    m1, m0 = w_map(st1, W), w_map(st0, W)
+    K1, K0 = st1.ghost["K_state"], st0.ghost["K_state"]
+    rp0, rp1 = st0.obj(L.self).fields["reexec_pid"].t, st1.obj(L.self).fields["reexec_pid"].t
+    p = qvar("p")
+    gone = lambda x: And(sel(K0, x) == 2, sel(K1, x) == 0)
+    return And(z3.ForAll([p], Or(sel(K1, p) == sel(K0, p), gone(p))),
+               z3.ForAll([p], If(And(gone(p), p != rp0), sel(m1, p) == 0, sel(m1, p) == sel(m0, p))),
+               rp1 == If(And(rp0 != 0, gone(rp0)), iv(0), rp0),
+               z3.ForAll([p], Implies(And(gone(p), p != rp0), And(_exitcode(st0, p) != 3, _exitcode(st0, p) != 4))),
+               st1.ghost["K_status"] == st0.ghost["K_status"])
